@@ -4,7 +4,11 @@ Explicit-state BFS (mc.statex) over histories of the real
 `treadmill.sproc.appmonitor` - `reevaluate` and the real watch glue of
 `_run_sync` (callbacks captured by running `_run_sync` on a tiny ZooKeeper
 client, see mc/c20_model.py) - under a virtual clock and a fake REST client.
-The children of /scheduled reach the real watch in a menu of orders.  From
+The children of /scheduled reach the real watch in a menu of orders.  Monitors
+are created, updated (count only / policy only / both) and deleted through the
+real `api.app_monitor` -> `masterapi.update_appmonitor / delete_appmonitor` ->
+`zkutils.put` on that client, never by writing the node; the reference keeps
+the (count, policy) the user configured last.  From
 every reached state two scripted continuations are executed as well: a *drain*
 (all instances die, evaluate with a succeeding API, 2*max+2 times) and a
 *convergence* run (+1 h, three succeeding evaluations, then instances ==
@@ -49,6 +53,28 @@ ASSUMPTIONS = [
     'the scheduled view is up to date at every evaluation: instances created '
     'by an accepted request are visible at the next evaluation, deleted ones '
     'are gone (watch lag is outside the statement)',
+    'monitors are configured by the real treadmill.api.app_monitor.API() '
+    'create / update / delete (called through __wrapped__: the schema '
+    'decorator cannot run here, so payloads are kept inside appmonitor.json '
+    'by the menu: count 0..3, policy fifo / lifo, update payloads {count}, '
+    '{policy}, {count, policy}) over the real masterapi.update_appmonitor / '
+    'get_appmonitor / delete_appmonitor and zkutils.put / get / '
+    'ensure_deleted; the tiny client implements create / set / delete / get '
+    '/ get_children / exists / set_acls with synchronous watch delivery '
+    '(children watch on create, data watch on set, data then children watch '
+    'on delete).  A key that is absent from an update payload means "leave '
+    'it": the reference policy / count is what the user configured last.  A '
+    'null policy inside a payload is not in the menu (the API cannot tell it '
+    'from an absent key, the statement does not say what it means); a policy '
+    'outside the schema ("bogus") is stored by calling '
+    'masterapi.update_appmonitor directly.  The admin CLI (treadmill admin '
+    'master monitor configure) cannot be imported here (kerberos) and is not '
+    'driven',
+    'the site of a violation is reevaluate/... unless the monitor node stored '
+    'in ZooKeeper differs from what the user configured (count, or policy '
+    'with None == fifo): then it names the last configuration request, e.g. '
+    'api.app_monitor.update(count)/stored-policy-differs; the verdict itself '
+    'never looks at the stored node',
     'fake restclient.post answers ok / NotFoundError / BadRequestError / '
     'ValidationError / generic Exception as the event says; an ok create makes '
     'exactly the requested number of instances with increasing 10-digit ids, '
@@ -133,6 +159,8 @@ def _cfg_single(tier):
         'orders': ['reversed', 'interleaved'],
         'order_answers': [('ok',)] if tier == 'quick'
         else [('ok',), ('boom',)],
+        'policies': ['fifo', 'lifo'],
+        'full_updates': True,
     }
     roots = [(('mon', A, c, p),) for p in (None, 'fifo', 'lifo', 'bogus')
              for c in (0, 1, 2, 3)]
@@ -151,6 +179,8 @@ def _cfg_pair(tier):
         'orders': ['reversed'] if tier == 'quick'
         else ['reversed', 'interleaved'],
         'order_answers': [('ok',)],
+        'policies': ['fifo', 'lifo'],
+        'full_updates': tier != 'quick',
     }
     roots = []
     for (c1, c2) in ((1, 2), (2, 1), (3, 0)):
@@ -169,7 +199,13 @@ def configs(ctx):
 
 NONTRIVIAL = ['evals_with_request', 'create_requests', 'delete_requests',
               'rate_limited_total', 'suspended_skips', 'instances_created',
-              'instances_deleted']
+              'instances_deleted',
+              # scale-downs whose policy was configured in an EARLIER request
+              # than the count they work towards, per policy
+              'deletes_after_count_only_update_lifo',
+              'deletes_after_count_only_update_fifo',
+              'deletes_after_policy_only_update_lifo',
+              'deletes_after_policy_only_update_fifo']
 
 
 def observe(spec, hist):
@@ -288,7 +324,8 @@ def run(ctx):
             'events_menu': {k: cfg[k] for k in
                             ('names', 'answers', 'ticks', 'counts',
                              'max_instances', 'delete', 'restart',
-                             'orders', 'order_answers')},
+                             'orders', 'order_answers', 'policies',
+                             'full_updates')},
             'probes_from_every_state': ['drain', 'converge'],
             'canonical_key_bisimulation_check': bisim,
             'final_level_probed': bool(getattr(res, 'final_probe_pass',
@@ -315,7 +352,7 @@ def run(ctx):
         sample_trace(_cfg_single(ctx.tier)[0], [
             ('mon', A, 2, 'lifo'), ('eval', 'ok'), ('die', A, 'old'),
             ('eval', '404'), ('tick', 900), ('extra', A), ('extra', A),
-            ('eval', 'ok'), ('mon', A, 1, 'lifo'), ('eval', 'ok')]),
+            ('eval', 'ok'), ('cnt', A, 1), ('eval', 'ok')]),
         sample_trace(_cfg_single(ctx.tier)[0], [
             ('mon', A, 1, None), ('eval', 'ok'), ('die', A, 'old'),
             ('eval', 'ok'), ('die', A, 'old'), ('eval', 'ok'),
